@@ -23,6 +23,8 @@ type Event struct {
 	ID     string `json:"id,omitempty"`   // XA identifier named by the command
 	Res    string `json:"res,omitempty"`  // ok | fault | rmfail | nota | dupid | outside
 	Xid    string `json:"xid,omitempty"`
+	IDH    string `json:"idh,omitempty"`  // hex of ID (JSON strings cannot carry arbitrary bytes)
+	XidH   string `json:"xidh,omitempty"` // hex of Xid
 	Branch int64  `json:"branch,omitempty"`
 	Status int    `json:"status,omitempty"`
 }
